@@ -661,7 +661,7 @@ pub fn ref_health(pos: &[PosIn], req: Req, now: i64) -> RefHealth {
         };
         let b = &p.bank;
         let q = BankQ::of(b);
-        let dec = if b.config.asset_tag == 4 { 9 } else { b.mint_decimals } as u32;
+        let dec = crate::state::balance_decimals(b);
         let scale = pow10(dec);
         let price = ref_price(b, &p.oracles, now);
         if side {
